@@ -1468,5 +1468,6 @@ Proof.
               by (unfold ms_close_session in Ec; destruct (ms_fail_running st MsELink);
                   destruct (ms_reset_all _ _); inversion Ec; reflexivity);
             unfold INVP in IP1; rewrite Pd in IP1;
-            apply open_session_OK; [exact IA1|exact IP1|exact Eo]).
+            apply (open_session_OK st1); [exact IA1|exact IP1|exact Eo]).
+  all: try (intros H; injection H as <- <-; apply OKR_nil; eapply INV_same; [| |exact I0]; reflexivity).
 Qed.
